@@ -55,23 +55,30 @@ def match_edges(body, vcall, of):
 
 # ---------------------------------------------------------------------- equivalent shapes of "the hot operand is a validated candidate list" (R1, C06.R3)
 _SUCCESS = ('Ok', 'Some', 'Continue')
-_FAILURE = ('Err', 'None', 'Break')
+_FAMILY = {'Some': 'Option', 'None': 'Option', 'Ok': 'Result', 'Err': 'Result', 'Continue': 'ControlFlow', 'Break': 'ControlFlow'}
 
 
 def _variant_of(a):
-    """Variant a value is known to be: an enum aggregate names it; `FromResidual::from_residual` only ever builds the failure variant (Err / None / Break)."""
-    if a[0] == 'agg' and '::' in a[1] and not a[1].startswith(('closure', 'coroutine')):
-        return a[1].rsplit('::', 1)[-1]
+    """(enum, variant) a value is known to be: an Option / Result / ControlFlow aggregate names it; `FromResidual::from_residual` only ever builds the failure
+    variant of its enum (Err / None / Break)."""
+    if a[0] == 'agg':
+        m = re.search(r'(^|::)(Option|Result|ControlFlow)::(Some|None|Ok|Err|Continue|Break)$', a[1])
+        if m and _FAMILY[m.group(3)] == m.group(2):
+            return (m.group(2), m.group(3))
     if a[0] == 'call' and len(a) > 3 and a[3] is not None and a[3].is_('core::ops::try_trait::FromResidual::from_residual'):
-        return 'Err'
+        return ('*', 'Err')
     return None
 
 
-def _compatible(want, have):
-    """Can a value known to be variant `have` be read as variant `want`?  (`?` is elided by the origin walk: Ok ≙ Continue, Err ≙ Break.)"""
-    if want == have:
-        return True
-    return (want in _SUCCESS and have in _SUCCESS) or (want in _FAILURE and have in _FAILURE)
+def _infeasible(want, known):
+    """A value known to be `known` is never read through a downcast to variant `want`.  The origin walk elides `?` (Try::branch: Ok / Some ≙ Continue, Err / None ≙
+    Break), ok_or, map_err, unwrap … — all of which keep the success / failure side; a variant of an unrelated enum says nothing."""
+    fam, have = known
+    if want not in _FAMILY:
+        return False
+    if fam != '*' and _FAMILY[want] != fam and _FAMILY[want] != 'ControlFlow':
+        return False
+    return (want in _SUCCESS) != (have in _SUCCESS)
 
 
 def value_alternatives(e):
@@ -85,7 +92,7 @@ def value_alternatives(e):
         out = []
         for a in value_alternatives(e[1]):
             v = _variant_of(a)
-            if v is not None and not _compatible(e[2], v):
+            if v is not None and _infeasible(e[2], v):
                 continue
             out.append(('downcast', a, e[2]))
         return out
@@ -589,7 +596,7 @@ def run(ctx, prog):
         okl = lp is not None and bool(accept(lp)) and lp['every'] and not lp['escapes'] and lp['item']
         why = '' if lp is None or okl else ''.join(
             ([] if lp['every'] else ['; an iteration can reach the next one without the invalidation']) +
-            ([] if not lp['escapes'] else ['; the loop can be left before the list is exhausted (%s)' % f.loc_of(lp['escapes'][0])]) +
+            ([] if not lp['escapes'] else ['; the loop can be left before the list is exhausted (%s)' % next((f.loc_of(x) for x in lp['escapes'] if not f.loc_of(x).startswith('?')), '?')]) +
             ([] if lp['item'] else ['; what is invalidated is not the loop item']))
         ctx.inst('C04.R4', f.short, 'invalidates L1a for every id', okl, 'invalidation loop iterates %s%s' % (lp['src'] if lp else '', why))
         return lp
